@@ -622,7 +622,44 @@ def run_property(pid, suites, tier, seed, assumptions, extra_obligation_check=No
     else:
         # correspondence failures attributable to a known finding (the model is the repaired behaviour) are not re-reported
         cor_unknown = [f for f in cor if not any(kf["property"] == pid and kf.get("scenario_key") and kf["scenario_key"] == getattr(f.scenario, "meta", {}).get("key") for kf in known.get("findings", []))]
-        if proofs["failures"] or cor_unknown:
+        found = None
+        searched = 0
+        if (proofs["failures"] or cor_unknown) and replay is None:
+            # directed search: the theorem or the correspondence no longer checks but no monitor failed so far; look for a
+            # concrete input on which the property fails on the implementation: fresh seeds for the suites concerned
+            # (all suites when only a proof obligation broke), implementation and monitors only
+            concerned = [su for su in suites if su.monitor is not None and
+                         (not cor_unknown or any(getattr(f, "suite", None) == su.name for f in cor_unknown))]
+            for rnd in range(3 if tier == "quick" else 8):
+                for su in concerned:
+                    extra_sc = su.generate(random.Random(seed * 7919 + 104729 * (rnd + 1) + int(pid[1:])), tier)
+                    key = (su.version, su.race)
+                    if key not in binaries:
+                        continue
+                    impl2 = run_impl(binaries[key], [sc.enc for sc in extra_sc], batch_timeout=su.batch_timeout, tag=pid + su.name + "s")
+                    searched += len(extra_sc)
+                    for sc, ir in zip(extra_sc, impl2):
+                        for what_, k in su.monitor(sc, ir):
+                            f = Failure("monitor", sc, what_, ir, None, key=k)
+                            f.suite = su.name
+                            if match_known(pid, f, known) is None:
+                                found = f
+                                break
+                        if found:
+                            break
+                    if found:
+                        break
+                if found:
+                    break
+        if found is not None:
+            path = write_replay(pid, {"property": pid, "kind": "monitor", "what": found.what, "failure": found.to_json(),
+                                      "found_by": "directed search after a broken proof obligation / correspondence",
+                                      "broken": {"proofs": proofs["failures"], "correspondence": [x.to_json() for x in cor_unknown[:5]]},
+                                      "replay": [dict(found.scenario.to_json(), suite=found.suite)]})
+            out_lines.append("VIOLATION property=%s replay=%s" % (pid, path))
+            exit_code = 1
+            violations.append(found)
+        elif proofs["failures"] or cor_unknown:
             what = []
             if proofs["failures"]:
                 what.append("proof obligations no longer check: " + "; ".join(proofs["failures"])[:1500])
@@ -634,7 +671,7 @@ def run_property(pid, suites, tier, seed, assumptions, extra_obligation_check=No
             path = write_replay(pid, {"property": pid, "kind": "no-failing-input-found", "what": what,
                                       "theorems": obligations_for(pid)["theorems"],
                                       "failures": [x.to_json() for x in cor_unknown[:20]],
-                                      "model_side_confirmed_in_coq": confirm,
+                                      "model_side_confirmed_in_coq": confirm, "directed_search_scenarios": searched,
                                       "replay": [dict(x.scenario.to_json(), suite=getattr(x, "suite", "")) for x in cor_unknown[:20]]})
             out_lines.append("VIOLATION property=%s replay=%s no-failing-input-found" % (pid, path))
             exit_code = 1
